@@ -131,6 +131,7 @@ impl<'t> W<'t> {
             }
             15 => {
                 if let Some((a, dims, _)) = self.pick_array(false) {
+                    let dims = self.subscript_count(dims);
                     let idx: Vec<String> = (0..dims).map(|_| self.num(d - 1)).collect();
                     format!("{}({})", a, idx.join(", "))
                 } else {
@@ -242,6 +243,7 @@ impl<'t> W<'t> {
             12 => format!("({})", self.str(d - 1)),
             13 => {
                 if let Some((a, dims, _)) = self.pick_array(true) {
+                    let dims = self.subscript_count(dims);
                     let idx: Vec<String> = (0..dims).map(|_| self.num(d - 1)).collect();
                     format!("{}({})", a, idx.join(", "))
                 } else {
@@ -269,6 +271,16 @@ impl<'t> W<'t> {
         }
     }
 
+    /// The number of subscripts written for an array of `dims` dimensions: now and then one more or one fewer
+    /// (whatever the checker makes of it, the program must not end in an internal failure).
+    fn subscript_count(&mut self, dims: usize) -> usize {
+        if self.t.chance(1, 14) {
+            if dims > 1 && self.t.chance(1, 2) { dims - 1 } else { dims + 1 }
+        } else {
+            dims
+        }
+    }
+
     /// A variable of any kind: numeric or string scalar, array element, record, record field.
     fn any_location(&mut self) -> String {
         match self.t.choose(5) {
@@ -283,6 +295,7 @@ impl<'t> W<'t> {
             }
             3 => {
                 if let Some((a, dims, _)) = self.pick_array_any() {
+                    let dims = self.subscript_count(dims);
                     let idx: Vec<String> = (0..dims).map(|_| self.t.pick(&["1", "0", "2", "-1", "3"]).to_string()).collect();
                     format!("{}({})", a, idx.join(", "))
                 } else {
@@ -328,6 +341,7 @@ impl<'t> W<'t> {
         match self.t.choose(5) {
             0 => {
                 if let Some((a, dims, _)) = self.pick_array(false) {
+                    let dims = self.subscript_count(dims);
                     let idx: Vec<String> = (0..dims).map(|_| self.num(1)).collect();
                     return format!("{}({})", a, idx.join(", "));
                 }
@@ -350,6 +364,7 @@ impl<'t> W<'t> {
         match self.t.choose(5) {
             0 => {
                 if let Some((a, dims, _)) = self.pick_array(true) {
+                    let dims = self.subscript_count(dims);
                     let idx: Vec<String> = (0..dims).map(|_| self.num(1)).collect();
                     return format!("{}({})", a, idx.join(", "));
                 }
